@@ -236,6 +236,19 @@ def rand_closure(rng, p_f3: float = 0.08, p_f4: float = 0.08) -> Dict[str, Any]:
             sizes[n] = {"MODULE_ID": 2, "HOST_ID": 2, "MSG_TYPE": 4, "MSG_COUNT": 4, "RTMA_MSG_HEADER": 48,
                         "CONNECT_V2": 8, "DATA_SET": 456}[n]
     next_id = [rng.randrange(1100, 5000)]
+    used_ids = set()
+    descending = rng.random() < 0.4       # message ids need not follow definition order
+
+    def fresh_id():
+        if descending:
+            while True:
+                v = rng.randrange(1000, 9000)
+                if v not in used_ids and not any(abs(v - u) < 12 for u in used_ids):
+                    used_ids.add(v)
+                    return v
+        next_id[0] += rng.randint(1, 9)
+        used_ids.add(next_id[0])
+        return next_id[0]
     next_mod = [rng.randrange(10, 60)]
     next_host = [rng.randrange(1, 1000)]
 
@@ -366,21 +379,23 @@ def rand_closure(rng, p_f3: float = 0.08, p_f4: float = 0.08) -> Dict[str, Any]:
         fs["messages"] = []
         for _ in range(rng.choice([0, 1, 1, 2, 3])):
             n = nm("M")
-            next_id[0] += rng.randint(1, 9)
+            mid = fresh_id()
+            if descending:
+                tags.add("ids_unordered")
             r = rng.random()
             if r < 0.15:
-                fs["messages"].append([n, next_id[0], None])
+                fs["messages"].append([n, mid, None])
                 tags.add("signal")
                 continue
             if r < 0.27 and (structs or msgs):
                 src = rng.choice(structs + msgs)
-                fs["messages"].append([n, next_id[0], src[0]])
+                fs["messages"].append([n, mid, src[0]])
                 msgs.append((n, src[1], fn))
                 sizes[n] = sizes[src[0]]
                 tags.add("reuse")
                 continue
             fields, d, sz = gen_fields(fn, False, 4)
-            fs["messages"].append([n, next_id[0], fields])
+            fs["messages"].append([n, mid, fields])
             msgs.append((n, d, fn))
             sizes[n] = sz
             tags.add(f"depth{d}")
